@@ -50,9 +50,10 @@ username jon@example.com attributes
 		"",
 		`access-list crypto-acl%S extended permit ip 10.1.2.0 255.255.255.0 host 10.3.4.5
 crypto ipsec ikev1 transform-set trans%S esp-3des esp-sha-hmac
+crypto ipsec ikev1 transform-set transB%S esp-aes esp-sha-hmac
 crypto map map-outside 10 match address crypto-acl%S
 crypto map map-outside 10 set peer 10.3.3.3
-crypto map map-outside 10 set ikev1 transform-set trans%S
+crypto map map-outside 10 set ikev1 transform-set trans%S transB%S
 crypto map map-outside interface outside
 tunnel-group 10.3.3.3 type ipsec-l2l
 tunnel-group 10.3.3.3 ipsec-attributes
@@ -74,12 +75,13 @@ tunnel-group 10.3.3.3 ipsec-attributes
 		`access-list crypto-acl%S extended permit ip 10.1.2.0 255.255.255.0 host 10.3.4.5
 access-list crypto-acl2%S extended permit ip 10.1.2.0 255.255.255.0 host 10.3.4.6
 crypto ipsec ikev1 transform-set trans%S esp-aes-256 esp-sha-hmac
+crypto ipsec ikev1 transform-set transB%S esp-aes esp-sha-hmac
 crypto map map-outside 10 match address crypto-acl%S
 crypto map map-outside 10 set peer 10.4.4.4
-crypto map map-outside 10 set ikev1 transform-set trans%S
+crypto map map-outside 10 set ikev1 transform-set trans%S transB%S
 crypto map map-outside 20 match address crypto-acl2%S
 crypto map map-outside 20 set peer 10.3.3.3
-crypto map map-outside 20 set ikev1 transform-set trans%S
+crypto map map-outside 20 set ikev1 transform-set trans%S transB%S
 crypto map map-outside interface outside
 tunnel-group 10.4.4.4 type ipsec-l2l
 tunnel-group 10.4.4.4 ipsec-attributes
